@@ -1180,12 +1180,13 @@ impl C10 {
 
     fn run_in_child(&mut self, case: &str, depth: usize, out: &mut CaseOutcome) {
         let exe = std::env::current_exe().expect("current_exe");
-        let res = std::process::Command::new(exe)
-            .args(["--driver", &self.driver, "--repo", &self.repo, "--replay-case", case])
+        let mut cmd = std::process::Command::new(exe);
+        cmd.args(["--driver", &self.driver, "--repo", &self.repo, "--replay-case", case])
             .env("C10_CHILD", "1")
-            .env("RUST_BACKTRACE", "0")
-            .output()
-            .expect("spawn child");
+            .env("RUST_BACKTRACE", "0");
+        // C10-i is stated for the usual 8 MiB main-thread stack, whatever `ulimit -s` says here
+        pin_child_stack(&mut cmd);
+        let res = cmd.output().expect("spawn child");
         let stdout = String::from_utf8_lossy(&res.stdout).into_owned();
         match res.status.code() {
             Some(0) => {}
